@@ -4,6 +4,7 @@ package main
 // counterexample and of one witness per cover point on the real VM. The result goes to stdout as JSON.
 
 import (
+	"math/big"
 	"encoding/json"
 	"fmt"
 	"go/types"
@@ -183,8 +184,8 @@ func (l *loaded) newEngine(h *Harness, params []int, model map[string]string) (*
 	e := &Engine{prog: l.prog, pkg: l.pkg, info: map[*ssa.Function]*fnInfo{}, globals: map[*ssa.Global]int{},
 		named: map[string]BytesV{}, unwind: h.unwind(), funcs: map[string]int{}, solver: theSolver, params: params,
 		linked: l.linked, names: h.Link, callers: []int{-1}, sigWho: map[int]*T{}, sigMsg: map[int]BytesV{},
-		sigMembers: []string{"m0", "m1", "m2"}, txTime: Var("T0", 'I'), model: model,
-		obs: map[string]*Obligation{}, replayCovers: map[string]int{}, replayHolds: map[string]int{}, replayFails: map[string]int{}}
+		sigMembers: []string{"m0", "m1", "m2"}, txTime: t0var(), model: model,
+		obs: map[string]*Obligation{}, feasCache: map[[2]int]bool{}, replayCovers: map[string]int{}, replayHolds: map[string]int{}, replayFails: map[string]int{}}
 	e.world = newWorld(1, model != nil)
 	for n, dir := range probeContracts {
 		e.world.srcDir[n] = filepath.Join(verifRoot, "engine", "probe", dir)
@@ -192,7 +193,7 @@ func (l *loaded) newEngine(h *Harness, params []int, model map[string]string) (*
 	if model != nil {
 		e.nextObj = 1 << 20
 	}
-	s0 := &State{pc: tTrue, heap: map[int]interface{}{}, height: I(1), lastTime: Var("T0", 'I'), gas: map[string]*T{}}
+	s0 := &State{pc: tTrue, heap: map[int]interface{}{}, height: I(1), lastTime: t0var(), gas: map[string]*T{}}
 	if model != nil {
 		s0.lastTime = I(0) // concrete clock values come from the chain in replay mode
 	}
@@ -214,10 +215,7 @@ func (l *loaded) newEngine(h *Harness, params []int, model map[string]string) (*
 		}
 	}
 	if model == nil {
-		t0 := Var("T0", 'I') // block clock: a realistic millisecond timestamp
-		t0r := And(Le(I(1000000000000), t0), Lt(t0, I(2000000000000)))
-		e.ranges = append(e.ranges, t0r)
-		e.solver.assertBase(t0r)
+		t0var() // block clock: a realistic millisecond timestamp
 	}
 	// package initialisers (globals such as `token`, transfer-detail prefixes); native-Go mode runs none
 	st := s0
@@ -336,6 +334,9 @@ func runJob(h *Harness, params []int, tier string) *JobResult {
 	if msg != "" {
 		res.Inconclusive = append(res.Inconclusive, "engine: "+msg)
 	}
+	if progress {
+		fmt.Fprintln(os.Stderr, "feasibility query sites:", feasSites)
+	}
 	res.SolverMs = theSolver.time.Milliseconds()
 	res.SolverErrors = theSolver.errors
 	res.CrossChecked, res.Disagree = theSolver.crossChecked, theSolver.disagreements
@@ -443,3 +444,5 @@ func jobMain(args []string) {
 	out, _ := json.Marshal(res)
 	fmt.Println("JOBRESULT " + string(out))
 }
+
+func t0var() *T { return VarR("T0", big.NewInt(1000000000000), big.NewInt(1999999999999)) }
